@@ -209,6 +209,8 @@ def diff_streams(lines, impl, model):
     for i, ln in enumerate(lines):
         a = impl[i] if i < len(impl) else "<no output>"
         b = model[i] if i < len(model) else "<no output>"
+        if a.startswith("?") or b.startswith("?"):      # unknown op / unparsable line / bad arguments on either side
+            bad.append((i, ln, a, b)); continue
         if b == "~ok": continue
         if a != b: bad.append((i, ln, a, b))
     return bad
